@@ -399,7 +399,8 @@ class Check:
     # -- finish
     def finish(self):
         os.makedirs(os.path.join(VERIF, 'replays'), exist_ok=True)
-        os.makedirs(os.path.join(VERIF, 'evidence'), exist_ok=True)
+        EVD = os.environ.get('BCT_EVIDENCE', os.path.join(VERIF, 'evidence'))
+        os.makedirs(EVD, exist_ok=True)
         lines, new_viol = [], []
         for v in self.viol:
             k = self._match_known(v)
@@ -445,7 +446,7 @@ class Check:
         cov['known_findings_hit'] = {k: v[1] for k, v in self.known_hit.items()}
         ev = {'property_id': self.pid, 'tier': self.tier, 'seed': self.seed, 'level': 'proof', 'coverage': cov,
               'assumptions': self.assumptions, 'wall_s': round(time.time() - self.t0, 2), 'violations': nviol}
-        json.dump(ev, open(os.path.join(VERIF, 'evidence', self.pid + '.json'), 'w'), indent=1, default=str)
+        json.dump(ev, open(os.path.join(EVD, self.pid + '.json'), 'w'), indent=1, default=str)
         for ln in lines:
             print(ln)
         print('%s tier=%s seed=%d evaluations=%d nontrivial=%d obligations=%d/%d violations=%d wall=%.1fs' % (
